@@ -110,9 +110,11 @@ CLAIMED.update({
             "piece; a piece without result has no such base. (3) C02_deep_cut_exact: two abutting pieces and a contig overlapping "
             "each in >= 3 error lengths: the contig is split exactly at the Pretext coordinate (C02_two_piece_cut gives the "
             "complete output for the one-cut script, with the margin shown sharp). Orientation = input x piece: to_scaffold_rows "
-            "(C14). NOT proved: the Pretext-order clause for pieces sharing a destination and everything after remap_to_input for "
-            "this property (fusion / naming keep rows: C07/C01 theorems) as one composed statement; the generator's reading of "
-            "PretextView (texel grid, floor coordinates) is an assumption. On every run the oracle judges the full statement on "
+            "(C14). (4) C02_pretext_order(_pairs): for EVERY map the pieces taking part are, in store order, a sub-sequence of the map's baits "
+            "in file order and every fused output scaffold is the join of the pieces with its key in that order (join gap between "
+            "them, left-overs last): pieces sharing a destination follow each other in Pretext order. NOT proved: these clauses as "
+            "ONE composed statement down to the renamed, sorted output assemblies (renaming and sorting keep rows: C07/C01 theorems); "
+            "the generator's reading of PretextView (texel grid, floor coordinates) is an assumption. On every run the oracle judges the full statement on "
             "generated edit scripts (cut sets on the texel grid, pieces >= 2 texels, any permutation/orientation/grouping, "
             "floor/ceil texel counts, sub-texel scaffolds, texel from 1 bp, both strands, boundary sweeps around 1, 2, 3 error "
             "lengths). " + PIPE,
